@@ -631,4 +631,42 @@ Section Ideal.
     - destruct (run12r_no_downgrade _ _ _ _ _ H H0 H1) as [v' [sh0 [k [A [B _]]]]].
       rewrite Hsel in A. injection A as <-. rewrite (scsv_hit_true _ _ Hv Hm) in B. discriminate B.
   Qed.
+
+  (* ---- the sentinel is enforced AT the ServerHello ------------------------------------------- *)
+  Lemma client_accepts_abort_on_sentinel c s :
+    sentinel_hit cmax (sh_version s) (sh_tail s) = true ->
+    exists a, client_accepts suite_ok cmin cmax c_extra_ok c s = VAbort a.
+  Proof.
+    intros H. unfold client_accepts, client_sh_check. cbv zeta. rewrite H.
+    repeat match goal with |- context [if ?b then _ else _] => destruct b end; eexists; reflexivity.
+  Qed.
+
+  Ltac brk2 H :=
+    match type of H with
+    | context [match ?x with _ => _ end] =>
+        lazymatch x with
+        | context [match _ with _ => _ end] => fail
+        | _ => let E := fresh "E" in destruct x eqn:E; try discriminate H
+        end
+    end.
+
+  Lemma run12_stops_at_server_hello a1 a2 sh' :
+    client_sees12 smin smax c_hello s_ch_ok s_reply12 a1 a2 = Some sh' ->
+    sentinel_hit cmax (sh_version sh') (sh_tail sh') = true ->
+    forall a3 a4, exists a, R12 a1 a2 a3 a4 = stop 1 a.
+  Proof.
+    unfold client_sees12, run12. cbv zeta. intros H Hit a3 a4.
+    repeat brk2 H. injection H as ->.
+    destruct (client_accepts_abort_on_sentinel c_hello sh' Hit) as [a Ha]. rewrite Ha. exists a. reflexivity.
+  Qed.
+
+  Lemma run12r_stops_at_server_hello a1 a2 sh' :
+    client_sees12r hash fin prf_of smin smax c_hello s_ch_ok s_resume a1 a2 = Some sh' ->
+    sentinel_hit cmax (sh_version sh') (sh_tail sh') = true ->
+    forall a3, exists a, R12r a1 a2 a3 = stop 1 a.
+  Proof.
+    unfold client_sees12r, run12r. cbv zeta. intros H Hit a3.
+    repeat brk2 H. injection H as ->.
+    destruct (client_accepts_abort_on_sentinel c_hello sh' Hit) as [a Ha]. rewrite Ha. exists a. reflexivity.
+  Qed.
 End Ideal.
